@@ -722,16 +722,9 @@ func c33SliceNum(n int) string {
 type c33OVar struct {
 	kind int // 0 unset, 1 scalar, 2 array
 	m    map[int]string
-	// noSet mirrors "the interpreter's Variable.Set is false although the variable has a value"
-	// (only after mapfile).  It is NOT part of the oracle (bash has no such thing); only the
-	// generator reads it, to apply the exclusion of finding C33-mapfile-not-set exactly.
-	noSet bool
-	// nilList mirrors "Variable.List is nil": read -a / mapfile given no field / line.  Generator
-	// only, for the exclusion of finding C33-empty-read-array-one-field.
-	nilList bool
 }
 
-func (v c33OVar) clone() c33OVar { return c33OVar{v.kind, maps33Clone(v.m), v.noSet, v.nilList} }
+func (v c33OVar) clone() c33OVar { return c33OVar{v.kind, maps33Clone(v.m)} }
 
 func (v c33OVar) max() int { return c33MapMax(v.m) }
 
@@ -754,34 +747,6 @@ func (v *c33OVar) lit(es []c33Elem, index int) {
 
 // apply returns false when bash reports an error for the command (the array is left alone).
 func (v *c33OVar) apply(cm c33Cmd, other c33OVar) bool {
-	ok := v.apply0(cm, other)
-	switch cm.kind {
-	case "ra", "mf":
-		v.nilList = len(cm.vals) == 0
-	case "ue":
-	default:
-		if ok {
-			v.nilList = false
-		}
-	}
-	switch cm.kind {
-	case "mf":
-		v.noSet = true
-	case "ue":
-		if v.kind == 0 {
-			v.noSet = false
-		}
-	case "ua", "ln":
-		v.noSet = false
-	default: // every other successful assignment makes the variable IsSet()
-		if ok {
-			v.noSet = false
-		}
-	}
-	return ok
-}
-
-func (v *c33OVar) apply0(cm c33Cmd, other c33OVar) bool {
 	if v.m == nil {
 		v.m = map[int]string{}
 	}
@@ -1167,8 +1132,6 @@ func c33GenItems(r *Rand, v c33OVar) []string {
 
 // c33GenProg generates a command list, tracking bash's semantics with the oracle so that the
 // documented exclusions can be applied exactly (see props/C33.notes.md):
-//   * `unset x` not while x holds what mapfile/readarray just stored  (finding C33-mapfile-not-set)
-//   * no copy `x=("${y[@]}")` from a y that read -a / mapfile left empty  (finding C33-empty-read-array-one-field)
 //   * out-of-range negative `x[i]=v` only at top level     (bash aborts the enclosing function /
 //     subshell on an assignment error; error handling, not array semantics)
 //   * reads only on arrays and unset variables, `${!x[@]}` only on arrays, `${x[-n]}` only in
@@ -1321,9 +1284,6 @@ func c33GenProg(r *Rand, thorough bool) ([]c33Cmd, []string) {
 				emit(c33Cmd{x: x, kind: "ue", i: i})
 				tagset["op:unset-elem"] = true
 			case k < 88:
-				if v.noSet {
-					continue // finding C33-mapfile-not-set: `unset x` is a no-op in interp right after mapfile
-				}
 				emit(c33Cmd{x: x, kind: "ua"})
 				tagset["op:unset-all"] = true
 			case k < 94:
@@ -1333,9 +1293,6 @@ func c33GenProg(r *Rand, thorough bool) ([]c33Cmd, []string) {
 				y := s.v(map[string]string{"a": "b", "b": "a"}[x])
 				if y.kind == 1 {
 					continue
-				}
-				if y.nilList {
-					continue // finding C33-empty-read-array-one-field: "${y[@]}" yields one empty field
 				}
 				kind := "cp"
 				if r.Bool() {
